@@ -267,6 +267,18 @@ struct Dumper {
         if (l) o << ",\"l\":" << l;
         std::string f = fileName(S->getBeginLoc());
         if (!f.empty() && f != curFile) o << ",\"lf\":" << fileOf(f);
+        // compile-time value of integral constant expressions that are not literals
+        // (constexpr calls, numeric_limits members, template arguments): "cv"
+        if (auto *E = dyn_cast<Expr>(S)) {
+            if (!isa<IntegerLiteral>(E) && !isa<CXXBoolLiteralExpr>(E) && !isa<UnaryExprOrTypeTraitExpr>(E) &&
+                !E->isValueDependent() && !E->isTypeDependent() && !E->getType().isNull() &&
+                E->getType()->isIntegralOrEnumerationType() &&
+                (isa<CallExpr>(E) || isa<DeclRefExpr>(E) || isa<MemberExpr>(E) || isa<BinaryOperator>(E) || isa<UnaryOperator>(E))) {
+                Expr::EvalResult R;
+                if (E->isEvaluatable(C) && E->EvaluateAsInt(R, C) && !R.HasSideEffects)
+                    o << ",\"cv\":\"" << llvm::toString(R.Val.getInt(), 10) << "\"";
+            }
+        }
     }
 
     void expr(std::ostringstream &o, const Expr *E0) {
